@@ -91,12 +91,11 @@ func (pc *PersistedClock) read() error {
 
 	var value uint64
 	n, err := fmt.Sscanf(string(content), "%d", &value)
-	if err != nil {
-		return err
-	}
-
-	if n != 1 {
-		return fmt.Errorf("could not read the clock")
+	if err != nil || n != 1 {
+		// An empty or garbled file, as an interrupted write leaves it, is as good as no file:
+		// the clock is reported as missing so that it gets rebuilt instead of making the
+		// repository unusable.
+		return ErrClockNotExist
 	}
 
 	pc.MemClock = NewMemClockWithTime(value)
